@@ -61,6 +61,16 @@ theorem RS.ite_swap (as : Vector Nat n) {lo hi i j : Nat} (c : Bool) (hi' : i < 
   · exact RS.swap as hi' hj' h1 h2 h3 h4
   · exact RS.refl _ _ _
 
+/-- what a partition of `[lo, hi]` around `pivot` returns -/
+def PartOK (as : Vector Nat n) (lo hi pivot : Nat) (r : {m : Nat // lo ≤ m ∧ m ≤ hi} × Vector Nat n) : Prop :=
+  RS as r.2 lo hi ∧ r.1.1 < hi ∧ ∃ (hmn : r.1.1 < n), r.2[r.1.1] = pivot ∧
+    (∀ x (hx : x < n), lo ≤ x → x < r.1.1 → r.2[x] < pivot) ∧
+    (∀ x (hx : x < n), r.1.1 < x → x ≤ hi → pivot ≤ r.2[x])
+
+theorem PartOK.of_RS {as bs : Vector Nat n} {lo hi pivot : Nat} {r : {m : Nat // lo ≤ m ∧ m ≤ hi} × Vector Nat n}
+    (h1 : RS as bs lo hi) (h2 : PartOK bs lo hi pivot r) : PartOK as lo hi pivot r :=
+  ⟨h1.trans h2.1, h2.2⟩
+
 /-- the partition loop -/
 theorem loop_spec (lo hi : Nat) (hhi : hi < n) (pivot : Nat) :
     ∀ (d : Nat) (as : Vector Nat n) (i k : Nat) (ilo : lo ≤ i) (ik : i ≤ k) (w : k ≤ hi), hi - k = d →
@@ -68,14 +78,7 @@ theorem loop_spec (lo hi : Nat) (hhi : hi < n) (pivot : Nat) :
       (∀ x (hx : x < n), lo ≤ x → x < i → as[x] < pivot) →
       (∀ x (hx : x < n), i ≤ x → x < k → pivot ≤ as[x]) →
       (∃ q, ∃ (hq : q < n), i ≤ q ∧ q < hi ∧ pivot ≤ as[q]) →
-      RS as (Array.qpartition.loop ltN lo hi hhi pivot as i k ilo ik w).2 lo hi ∧
-      ∃ (hm : (Array.qpartition.loop ltN lo hi hhi pivot as i k ilo ik w).1.1 < hi),
-        (Array.qpartition.loop ltN lo hi hhi pivot as i k ilo ik w).2[
-          (Array.qpartition.loop ltN lo hi hhi pivot as i k ilo ik w).1.1] = pivot ∧
-        (∀ x (hx : x < n), lo ≤ x → x < (Array.qpartition.loop ltN lo hi hhi pivot as i k ilo ik w).1.1 →
-          (Array.qpartition.loop ltN lo hi hhi pivot as i k ilo ik w).2[x] < pivot) ∧
-        (∀ x (hx : x < n), (Array.qpartition.loop ltN lo hi hhi pivot as i k ilo ik w).1.1 < x → x ≤ hi →
-          pivot ≤ (Array.qpartition.loop ltN lo hi hhi pivot as i k ilo ik w).2[x]) := by
+      PartOK as lo hi pivot (Array.qpartition.loop ltN lo hi hhi pivot as i k ilo ik w) := by
   intro d
   induction d with
   | zero =>
@@ -87,12 +90,17 @@ theorem loop_spec (lo hi : Nat) (hhi : hi < n) (pivot : Nat) :
     simp only [hk, dite_false]
     obtain ⟨q, hqn, q1, q2, q3⟩ := hq
     have hin : i < n := by omega
-    refine ⟨RS.swap as hin hhi ilo (by omega) (by omega) (Nat.le_refl _), by omega, ?_, ?_, ?_⟩
-    · rw [Vector.getElem_swap_left]; exact hp
+    refine ⟨RS.swap as hin hhi ilo (by omega) (by omega) (Nat.le_refl _), by show i < k; omega, hin, ?_, ?_, ?_⟩
+    · show (as.swap i k hin hhi)[i] = pivot
+      rw [Vector.getElem_swap_left]; exact hp
     · intro x hx a b
+      show (as.swap i k hin hhi)[x] < pivot
+      have b' : x < i := b
       rw [Vector.getElem_swap_of_ne (by omega) (by omega)]
-      exact hb x hx a b
+      exact hb x hx a b'
     · intro x hx a b
+      show pivot ≤ (as.swap i k hin hhi)[x]
+      have a' : i < x := a
       by_cases hxk : x = k
       · subst hxk
         rw [Vector.getElem_swap_right]
@@ -130,7 +138,7 @@ theorem loop_spec (lo hi : Nat) (hhi : hi < n) (pivot : Nat) :
           · subst hqi
             exact ⟨k, hkn, by omega, hk, by rw [Vector.getElem_swap_right]; exact q3⟩
           · exact ⟨q, hqn, by omega, q2, by rw [Vector.getElem_swap_of_ne hqi hqk]; exact q3⟩)
-      exact ⟨(RS.swap as hin hkn ilo (by omega) (by omega) (by omega)).trans IH.1, IH.2⟩
+      exact PartOK.of_RS (RS.swap as hin hkn ilo (by omega) (by omega) (by omega)) IH
     · rename_i hlt
       have hge : pivot ≤ as[k] := by
         have : ¬ as[k] < pivot := by simpa [ltN] using hlt
@@ -142,5 +150,124 @@ theorem loop_spec (lo hi : Nat) (hhi : hi < n) (pivot : Nat) :
           · subst hxk; exact hge
           · exact hc x hx a (by omega))
         ⟨q, hqn, q1, q2, q3⟩
+
+/-- `qpartition` on a range with at least two elements -/
+theorem qpartition_spec (as : Vector Nat n) (lo hi : Nat) (w : lo ≤ hi) (hlo : lo < n) (hhi : hi < n)
+    (hlt : lo < hi) : ∃ p, PartOK as lo hi p (Array.qpartition as ltN lo hi w hlo hhi) := by
+  have hmid1 : lo ≤ (lo + hi) / 2 := by omega
+  have hmid2 : (lo + hi) / 2 < hi := by omega
+  have hmidn : (lo + hi) / 2 < n := by omega
+  -- the three conditional swaps of the median-of-three rule
+  obtain ⟨a1, ha1⟩ : ∃ a1, a1 = (if ltN (as[(lo + hi) / 2]) (as[lo]) = true then as.swap lo ((lo + hi) / 2) else as) :=
+    ⟨_, rfl⟩
+  obtain ⟨a2, ha2⟩ : ∃ a2, a2 = (if ltN (a1[hi]) (a1[lo]) = true then a1.swap lo hi else a1) := ⟨_, rfl⟩
+  obtain ⟨a3, ha3⟩ : ∃ a3, a3 = (if ltN (a2[(lo + hi) / 2]) (a2[hi]) = true then a2.swap ((lo + hi) / 2) hi else a2) :=
+    ⟨_, rfl⟩
+  have r1 : RS as a1 lo hi := by
+    rw [ha1]; exact RS.ite_swap as _ hlo hmidn (Nat.le_refl _) w hmid1 (by omega)
+  have r2 : RS a1 a2 lo hi := by
+    rw [ha2]; exact RS.ite_swap a1 _ hlo hhi (Nat.le_refl _) w w (Nat.le_refl _)
+  have r3 : RS a2 a3 lo hi := by
+    rw [ha3]; exact RS.ite_swap a2 _ hmidn hhi hmid1 (by omega) w (Nat.le_refl _)
+  have hmed : a3[hi] ≤ a3[(lo + hi) / 2] := by
+    rw [ha3]
+    split
+    · rename_i hc
+      have hc' : a2[(lo + hi) / 2] < a2[hi] := by simpa [ltN] using hc
+      rw [Vector.getElem_swap_right, Vector.getElem_swap_left]
+      omega
+    · rename_i hc
+      have hc' : ¬ a2[(lo + hi) / 2] < a2[hi] := by simpa [ltN] using hc
+      omega
+  have heq : Array.qpartition as ltN lo hi w hlo hhi =
+      Array.qpartition.loop ltN lo hi hhi (a3[hi]) a3 lo lo (Nat.le_refl _) (Nat.le_refl _) w := by
+    subst ha3; subst ha2; subst ha1
+    rfl
+  refine ⟨a3[hi], ?_⟩
+  rw [heq]
+  refine PartOK.of_RS ((r1.trans r2).trans r3) ?_
+  exact loop_spec lo hi hhi (a3[hi]) (hi - lo) a3 lo lo _ _ _ rfl rfl (fun x hx a b => by omega)
+    (fun x hx a b => by omega) ⟨(lo + hi) / 2, hmidn, hmid1, hmid2, hmed⟩
+
+/-- sorted on a range of indices -/
+def SortedOn (as : Vector Nat n) (lo hi : Nat) : Prop :=
+  ∀ i j (hi' : i < n) (hj' : j < n), lo ≤ i → i ≤ j → j ≤ hi → as[i] ≤ as[j]
+
+/-- **`qsort.sort` sorts its range and only rearranges inside it** -/
+theorem sort_spec : ∀ (d : Nat) (as : Vector Nat n) (lo hi : Nat) (w : lo ≤ hi) (hlo : lo < n) (hhi : hi < n),
+    hi - lo ≤ d → RS as (Array.qsort.sort ltN as lo hi w hlo hhi) lo hi ∧
+      SortedOn (Array.qsort.sort ltN as lo hi w hlo hhi) lo hi := by
+  intro d
+  induction d with
+  | zero =>
+    intro as lo hi w hlo hhi hd
+    rw [Array.qsort.sort.eq_def]
+    have : ¬ lo < hi := by omega
+    simp only [this, dite_false]
+    refine ⟨RS.refl _ _ _, fun i j hi' hj' a b c => ?_⟩
+    have : i = j := by omega
+    subst this; exact Nat.le_refl _
+  | succ d ih =>
+    intro as lo hi w hlo hhi hd
+    rw [Array.qsort.sort.eq_def]
+    split
+    · rename_i h1
+      obtain ⟨p, hp⟩ := qpartition_spec as lo hi w hlo hhi h1
+      generalize Array.qpartition as ltN lo hi w hlo hhi = r at hp
+      obtain ⟨⟨mid, hmid⟩, a1⟩ := r
+      obtain ⟨rs1, hmlt, hmn, hpiv, hlow, hhigh⟩ := hp
+      simp only at rs1 hmlt hmn hpiv hlow hhigh ⊢
+      split
+      · omega
+      · rename_i h2
+        obtain ⟨rs2, so2⟩ := ih a1 lo mid hmid.1 hlo hmn (by omega)
+        generalize Array.qsort.sort ltN a1 lo mid hmid.1 hlo hmn = a2 at rs2 so2 ⊢
+        obtain ⟨rs3, so3⟩ := ih a2 (mid + 1) hi (by omega) (by omega) hhi (by omega)
+        generalize Array.qsort.sort ltN a2 (mid + 1) hi (by omega) (by omega) hhi = a3 at rs3 so3 ⊢
+        refine ⟨(rs1.trans (rs2.mono (Nat.le_refl _) (by omega))).trans (rs3.mono (by omega) (Nat.le_refl _)), ?_⟩
+        intro i j hi' hj' a b c
+        by_cases hj : j ≤ mid
+        · rw [rs3.1 i hi' (by omega), rs3.1 j hj' (by omega)]
+          exact so2 i j hi' hj' a b hj
+        · by_cases hi2 : mid < i
+          · exact so3 i j hi' hj' (by omega) b c
+          · -- i ≤ mid < j
+            rw [rs3.1 i hi' (by omega)]
+            obtain ⟨i0, hi0, a0, b0, e0⟩ := rs2.2 i hi' a (by omega)
+            obtain ⟨j0, hj0, a1', b1', e1⟩ := rs3.2 j hj' (by omega) c
+            rw [e0, e1, rs2.1 j0 hj0 (by omega)]
+            have hle : a1[i0] ≤ p := by
+              by_cases him : i0 = mid
+              · subst him; omega
+              · have := hlow i0 hi0 a0 (by omega); omega
+            have hge : p ≤ a1[j0] := hhigh j0 hj0 (by omega) b1'
+            omega
+    · rename_i h1
+      refine ⟨RS.refl _ _ _, fun i j hi' hj' a b c => ?_⟩
+      have : i = j := by omega
+      subst this; exact Nat.le_refl _
+
+/-- **`Array.qsort` on `Nat` with `<` returns a sorted array** -/
+theorem qsort_sorted (as : Array Nat) : (as.qsort ltN).toList.Pairwise (· ≤ ·) := by
+  unfold Array.qsort
+  split
+  · rename_i h
+    have : as = #[] := Array.eq_empty_of_size_eq_zero h
+    subst this; simp
+  · rename_i h
+    simp only []
+    have hsz : 0 < as.size := by omega
+    have e1 : min 0 (as.size - 1) = 0 := by omega
+    have e2 : max (min 0 (as.size - 1)) (min (as.size - 1) (as.size - 1)) = as.size - 1 := by omega
+    obtain ⟨_, so⟩ := sort_spec (as.size - 1) as.toVector (min 0 (as.size - 1))
+      (max (min 0 (as.size - 1)) (min (as.size - 1) (as.size - 1))) (by omega) (by omega) (by omega) (by omega)
+    generalize Array.qsort.sort ltN as.toVector (min 0 (as.size - 1))
+      (max (min 0 (as.size - 1)) (min (as.size - 1) (as.size - 1))) (by omega) (by omega) (by omega) = v at so ⊢
+    rw [List.pairwise_iff_getElem]
+    intro i j hi hj hij
+    have hi' : i < as.size := by simpa using hi
+    have hj' : j < as.size := by simpa using hj
+    have := so i j hi' hj' (by omega) (by omega) (by omega)
+    simpa using this
 
 end Simu.Remesh.QS
